@@ -3,6 +3,7 @@ package runop
 import (
 	"bytes"
 	"fmt"
+	"sort"
 	"strings"
 
 	"elaverif/harness/hx"
@@ -128,6 +129,40 @@ func ExecTxsig(t []string) string {
 		return "err scriptAttr"
 	}
 	return ErrClass(err)
+}
+
+// ExecTie runs the real checkTransactionSignature 48 times on freshly built transactions (the order of
+// hashes with EQUAL code hashes depends on Go's map iteration order and the unstable sort) and answers
+// the sorted set of distinct verdicts, joined by '|'.
+func ExecTie(t []string) string {
+	o := ParseTxsig(t)
+	seen := map[string]bool{}
+	for i := 0; i < 48; i++ {
+		tx, refs, ok := BuildTx(o, o.Run.Ps)
+		if !ok {
+			return "no-payload"
+		}
+		if i == 0 && !bytes.Equal(UnsignedOf(tx), o.Run.Data) {
+			return "oracle-mismatch"
+		}
+		var err error
+		if o.Variant == "bc" {
+			err = blockchain.VerifC05CheckTransactionSignature(tx, refs)
+		} else {
+			err = transaction.VerifC05CheckTransactionSignature(tx, refs)
+		}
+		if err != nil && err.Error() == "[BaseTransaction], GetProgramHashes err" {
+			seen["err scriptAttr"] = true
+		} else {
+			seen[ErrClass(err)] = true
+		}
+	}
+	var ks []string
+	for k := range seen {
+		ks = append(ks, k)
+	}
+	sort.Strings(ks)
+	return strings.Join(ks, "|")
 }
 
 func TxsigLine(o *TxOp, ps []ProgIn) string {
